@@ -276,7 +276,7 @@ def cow_unwrap(ctx, rid):
     i_id = q.param_index(fn, lambda t: t == "u32")
     got = show(t, 10 ** 5)
     R0 = "TypeGenerator::resolve_type(P0,P%d)?" % i_id
-    exp = "if((let v1::Some($)=Path::ident(%s.path)&&(Path::ident(%s.path)@v1::Some.0=='Cow'))){TypeGenerator::resolve_type(P0,ok_or(%s.type_params['0'].ty,TypegenError::InvalidType(%s))?.id)?}else{%s}" % (R0, R0, R0, ANY, R0)
+    exp = "TypeGenerator::resolve_type(P0,if((let v1::Some($)=Path::ident(%s.path)&&(Path::ident(%s.path)@v1::Some.0=='Cow'))){ok_or(%s.type_params['0'].ty,TypegenError::InvalidType(%s))?.id}else{P%d})?" % (R0, R0, R0, ANY, i_id)
     expect_term(ctx, rid, "cow-unwrap", m, got, exp, "Cow<T> is transparent: resolved type replaced by its first parameter's type")
 
 
